@@ -26,7 +26,7 @@ SpecAllows(line) ==
     LET p == SpellAll(BasePath(Tpl(line.t)), line.sps) IN
     /\ ApplicableAll(BasePath(Tpl(line.t)), line.sps)
     /\ line.target = Target(p)
-    /\ line.h \in HdrClasses
+    /\ line.h.accept \in Accepts /\ line.h.ctype \in Ctypes /\ line.h.override \in Overrides /\ line.h.body \in BOOLEAN
     /\ \A i \in DOMAIN line.obs : \E r \in Serve(line.m, p, line.w, line.h) : Allowed(line.obs[i], r)
 
 TInit == l = 1 /\ viol = {} /\ drift = {}
